@@ -763,6 +763,49 @@ def sector_window_obligations(P, hmax=359):
                 if lin.any_feasible(base + lin.cons(lo, ">=")[0] + lin.cons(up, "<")[0], dnfs):
                     bad.append(("an observation inside the window (through the %s) is left out" % {-1: "wrap below 0 deg", 0: "direct range", 1: "wrap above 360 deg"}[mshift], constraints, line))
                     break
+    # ... and the median of sector kk goes to exactly the observations whose own direction lies in [kk, kk + 1)
+    recv_bad, n_recv = [], 0
+    seen_r = set()
+    for r in res:
+        if r.kind != "return" or not isinstance(r.value, Arr) or any(d.startswith("unknown test") for d, _ in r.path):
+            continue
+        Ls = [L for L in r.loops if any(isinstance(e, Expr) and L.ivar in e.atoms() for e, _, _ in r.constraints)]
+        if not Ls:
+            continue
+        L = Ls[-1]
+        v = r.value.val
+        stored = isinstance(v, Expr) and v.eq(alg.sym("sector_median"))
+        key = (stored, tuple((repr(e), op, d) for e, op, d in r.constraints))
+        if key in seen_r:
+            continue
+        seen_r.add(key)
+        kk = L.rng.start + alg.atom_expr(L.ivar) * L.rng.step
+        base, dnfs, okb = [], [], True
+        for cexpr, op in ((alg.atom_expr(L.ivar), ">="), (kk - L.rng.stop, "<"), (w, ">="), (w - 360, "<"), (h - ONE, ">="), (h - alg.const(hmax), "<=")):
+            base.extend(lin.cons(cexpr, op)[0])
+        for e, op, d in r.constraints:
+            c = lin.cons(e, op if d else lin.NEGATE[op], (L.ivar,))
+            if c is None:
+                continue
+            if len(c) == 1:
+                base.extend(c[0])
+            else:
+                dnfs.append(c)
+        if not lin.any_feasible(base, dnfs):
+            continue
+        n_recv += 1
+        lo, up = w - kk, w - kk - ONE  # in the sector: lo >= 0 and up < 0
+        if stored:
+            if lin.any_feasible(base, dnfs + [[lin.cons(lo, "<")[0], lin.cons(up, ">=")[0]]]):
+                recv_bad.append("an observation outside [kk, kk + 1) receives the median of sector kk")
+        else:
+            if lin.any_feasible(base + lin.cons(lo, ">=")[0] + lin.cons(up, "<")[0], dnfs):
+                recv_bad.append("an observation whose direction lies in [kk, kk + 1) does not receive the median of its sector (it keeps NaN)")
+        full = r.facts.possible(L.rng.start) <= {"0", "-"} and r.facts.possible((L.rng.stop - 360).expand()) <= {"0", "+"} and L.rng.step.eq(ONE)
+        if not full:
+            recv_bad.append("the sectors range over [%r, %r), not over all 360 degrees" % (L.rng.start, L.rng.stop))
+    obs.append(req_ob("R-SECTOR", site, "every observation receives the smoothed value of the one-degree sector its own direction lies in (sectors 0 .. 359, [kk, kk + 1))",
+                      (not recv_bad) if n_recv >= 2 else None, detail="; ".join(sorted(set(recv_bad))[:2]) or ("%d receiving paths" % n_recv), key={"clause": "receiving-sector"}))
     obs.append(req_ob("R-SECTOR", site, "every feasible combination of comparison outcomes in the sector loop was examined", n_checked >= 4, detail="%d feasible path conditions" % n_checked))
     if bad:
         for what, constraints, line in bad[:3]:
